@@ -471,31 +471,50 @@ class LV:
         if not any(e.k == "decision" and e.test == guard and e.outcome for e in p.trace):
             return False
         # density = ceil(window / stride) in the enclosing factory (shape check)
-        return _density_is_ceil(self.site)
+        return _density_is_ceil(self.site, D, stride)
 
 
-def _density_is_ceil(site):
+def _density_is_ceil(site, D, stride):
+    """D, the number of slots per key, is ceil(W / stride) for a factory parameter W: either D is that expression
+    (a single-assignment constant of the factory, propagated by the executor) or D is a local of the factory computed
+    by the two-statement idiom  D = W // stride; if W % stride: D += 1."""
     import ast
+    from .linear import quotient_shape
+    q = quotient_shape(D)
+    if q is not None:
+        co = dict(q[1][0])
+        return q[0] == "ceil" and q[2] == stride and q[1][1] == 0 and len(co) == 1 and list(co.values()) == [1] \
+            and list(co)[0][0] == "param"
+    if D[0] != "free" or stride[0] != "param":
+        return False
+    name, owner, sname = D[1], D[2], stride[1]
     m = site.module
     fn = m.enclosing_function(site.subscribe_fn)
-    while fn is not None and m.scopes[fn].qualname != "roll_mux":
+    while fn is not None and m.scopes[fn].qualname != owner:
         fn = m.enclosing_function(fn)
     if fn is None:
         return False
-    a = b = c = False
+    params = set(m.scopes[fn].params)
+    W = None
+    a = b = False
     for st in fn.body:
-        if isinstance(st, ast.Assign):
-            txt = ast.unparse(st)
-            if txt == "density = window // stride":
+        if isinstance(st, ast.Assign) and len(st.targets) == 1 and isinstance(st.targets[0], ast.Name) and st.targets[0].id == name:
+            v = st.value
+            if isinstance(v, ast.BinOp) and isinstance(v.op, ast.FloorDiv) and isinstance(v.left, ast.Name) and v.left.id in params \
+                    and isinstance(v.right, ast.Name) and v.right.id == sname and not a:
+                W = v.left.id
                 a = True
-            if txt in ("density = -(-window // stride)", "density = math.ceil(window / stride)",
-                       "density = (window + stride - 1) // stride"):
-                c = True
-        elif isinstance(st, ast.If) and not st.orelse and len(st.body) == 1:
-            if ast.unparse(st.test) in ("window % stride", "window % stride != 0", "window % stride > 0") \
-                    and ast.unparse(st.body[0]) in ("density += 1", "density = density + 1"):
+            else:
+                return False
+        elif isinstance(st, ast.If) and not st.orelse and len(st.body) == 1 and W is not None:
+            if ast.unparse(st.test) in ("%s %% %s" % (W, sname), "%s %% %s != 0" % (W, sname), "%s %% %s > 0" % (W, sname)) \
+                    and ast.unparse(st.body[0]) in ("%s += 1" % name, "%s = %s + 1" % (name, name)):
                 b = True
-    return (a and b) or c
+        elif any(isinstance(x, ast.Name) and x.id == name and isinstance(x.ctx, ast.Store) for x in ast.walk(st)
+                 if not isinstance(st, (ast.FunctionDef, ast.Lambda))):
+            if not isinstance(st, ast.FunctionDef):
+                return False
+    return a and b
 
 
 def _index_of_key(key):
